@@ -35,7 +35,7 @@ def run_harness(exe, lines, workdir, tag):
         except subprocess.TimeoutExpired as e:
             rc, out, err = 124, (e.stdout.decode() if isinstance(e.stdout, bytes) else (e.stdout or "")), "timeout"
         ls = out.split("\n")
-        obs += [l for l in ls if l.startswith(("res ", "ans ", "exc "))]
+        obs += [l for l in ls if l.startswith(("res ", "ans ", "exc ", "aux "))]
         if rc == 0:
             break
         if rc == 3:
@@ -62,6 +62,53 @@ def fields(line):
             except (ValueError, IndexError): pass
     d["guard"] = (" guard 1 " in line)
     return d
+
+
+def grid_cause(fd, aux):
+    """triggering condition of a Grid::wrap_assign failure, from the frequencies of the wrapped variables in the argument"""
+    if not aux:
+        return "other"
+    t = aux.split(" ")[3:]
+    M = 1 << fd.get("w", 8)
+    rational, half, sconst = False, False, False
+    mn = -(M >> 1) if fd.get("sg") else 0
+    for i in range(0, len(t) - 4, 5):
+        v, fn, fdn, vn, vd = t[i:i + 5]
+        if fn == "none":
+            continue
+        fn, fdn, vn, vd = int(fn), int(fdn), int(vn), int(vd)
+        if fn != 0 and (fdn != 1 or vd != 1):
+            rational = True
+        if fn != 0 and fdn == 1 and M <= 2 * fn < 2 * M:
+            half = True
+        if fn == 0 and vd == 1 and fd.get("sg") == 1 and not (mn <= vn <= mn + M - 1):
+            sconst = True
+    if rational:
+        return "rational-frequency"
+    if half and fd.get("ov") == 2:
+        return "impossible-frequency-below-wrap"
+    if sconst and fd.get("ov") == 0:
+        return "signed-constant-out-of-range"
+    return "other"
+
+
+def cip_cause(case, detail):
+    """NNC strict inequality whose inhomogeneous term is negative and not a multiple of the gcd of the coefficients"""
+    import math
+    if "library says an integer point exists" not in detail:
+        return "other"
+    t = case.split(" ")
+    n = int(t[3])
+    i = t.index("cons") + 2
+    k = int(t[i - 1])
+    for _ in range(k):
+        kind, b, co = t[i], int(t[i + 1]), [int(x) for x in t[i + 2:i + 2 + n]]
+        g = 0
+        for c in co: g = math.gcd(g, abs(c))
+        if kind == ">" and b < 0 and g > 1 and b % g != 0:
+            return "strict-negative-inhomogeneous"
+        i += 2 + n
+    return "other"
 
 
 def harness_part(line):
@@ -122,6 +169,7 @@ def run(chk):
     open(of, "w").write("\n".join(obs) + "\n")
     rc, out = common.sh([judge, cf, of], timeout=3000)
     stat, cov, nontriv = {}, {}, set()
+    aux = {l.split(" ")[1]: l for l in obs if l.startswith("aux ")}
     if rc != 0:
         raise RuntimeError("judge failed rc=%s: %s" % (rc, out[-1500:]))
     for l in out.split("\n"):
@@ -150,6 +198,10 @@ def run(chk):
             site = SITE.get(fd.get("cmd"), "?")
             if fd.get("cmd") == "wrap":
                 site = GENERIC_SITE if generic else {"BOX": "Box::wrap_assign", "GRID": "Grid::wrap_assign"}.get(fd.get("dom"), "wrap_assign")
+            if fd.get("dom") == "GRID" and fd.get("cmd") == "wrap":
+                tag = grid_cause(fd, aux.get(cid))
+            if fd.get("cmd") == "cip":
+                tag = cip_cause(case, detail)
             info = {"site": site, "kind": kind, "domain": fd.get("dom"), "cause": tag}
             if fd.get("cmd") == "wrap":
                 info["path"] = ("collective" if fd.get("ind") == 0 else "individual") + "-" + {0: "wraps", 1: "undefined", 2: "impossible"}.get(fd.get("ov"), "?")
